@@ -118,6 +118,7 @@ class Stack:
         self.clock = clock or make_clock()
         ttask._theCooperator = Cooperator(scheduler=lambda c: self.clock.callLater(0, c))
         self.swissnum = swissnum
+        self.owner = {}
         self.ss = StorageServer(self.dir, nodeid, clock=self.clock)
         self.hs = HTTPServer(self.clock, self.ss, swissnum)
         self.treq = StubTreq(self.hs.get_resource())
@@ -175,12 +176,28 @@ class Stack:
                 with open(p, "rb") as fh:
                     files[os.path.relpath(p, self.dir)] = fh.read()
         ups = {}
-        for si, u in self.hs._uploads._uploads.items():
-            for n, sec in u.upload_secrets.items():
-                bw = u.shares.get(n)
-                rng = tuple((a, b) for (a, b, _) in bw._already_written.ranges()) if bw is not None else None
-                ups[(si, n)] = (sec, rng, bw.closed if bw is not None else None)
+        for (si_s, n, bw, sec) in self.open_uploads():
+            ups[(si_s, n)] = (sec, tuple((a, b) for (a, b, _) in bw._already_written.ranges()), bw.closed)
         return files, ups, tuple(sorted(self.ss._bucket_writers))
+
+    def note_allocated(self, si_s, nums, secret):
+        """the harness's own record of which upload secret created which upload (taken from the answers to
+        allocation requests; HTTPServer's internal tables are deliberately not consulted)"""
+        for n in nums:
+            self.owner[(si_s, n)] = secret
+
+    def open_uploads(self):
+        """[(storage index string, share number, BucketWriter, creating upload secret)] of the uploads in progress,
+        read off the StorageServer's bucket writers (incoming/<prefix>/<si>/<n>)"""
+        res = []
+        for home, bw in self.ss._bucket_writers.items():
+            si_s = os.path.basename(os.path.dirname(home))
+            n = int(os.path.basename(home))
+            res.append((si_s, n, bw, self.owner.get((si_s, n), b"?")))
+        live = {(a, b) for (a, b, _, _) in res}
+        for k in [k for k in self.owner if k not in live]:
+            del self.owner[k]
+        return sorted(res, key=lambda x: (x[0], x[1]))
 
     def abstract(self):
         """the state in the vocabulary of the Lean model (see Tahoe.Http.Text.showState)"""
@@ -208,9 +225,8 @@ class Stack:
                         s = ShareFile(fn)
                         data = s.read_share_data(0, s.get_length())
                         items.append("I%s/%d=%s%s" % (si_s, int(n), hx(data), show_leases(s.get_leases())))
-        for si, u in self.hs._uploads._uploads.items():
-            for n, sec in u.upload_secrets.items():
-                bw = u.shares[n]
+        for (si_s_u, n, bw, sec) in self.open_uploads():
+            if True:
                 size = bw._max_size
                 content = bw._sharefile.read_share_data(0, size) if size else b""
                 content = content + b"\x00" * (size - len(content))
@@ -218,7 +234,7 @@ class Stack:
                 for (a, b, _) in bw._already_written.ranges():
                     for i in range(a, b):
                         cells[i] = "%02x" % content[i]
-                items.append("U%s/%d=%s:%s%s" % (si_b2a(si).decode(), n, hx(sec), "".join(cells) or "-",
+                items.append("U%s/%d=%s:%s%s" % (si_s_u, n, hx(sec), "".join(cells) or "-",
                                                  show_leases(bw._sharefile.get_leases())))
         adv = len(os.listdir(self.ss.corruption_advisory_dir))
         return " ".join(sorted(items) + ["adv=%d" % adv])
@@ -442,7 +458,11 @@ class World:
         self.imm_si = [si_b2a(rbytes(rng, 16)).decode() for _ in range(2)]
         self.mut_si = [si_b2a(rbytes(rng, 16)).decode() for _ in range(2)]
         self.lease = [rbytes(rng, 32) for _ in range(3)]
-        self.upload = [rbytes(rng, rng.choice([1, 16, 20, 32])) for _ in range(2)]
+        self.upload = []
+        while len(self.upload) < 3:          # three distinct upload secrets (different clients)
+            u = rbytes(rng, rng.choice([1, 16, 20, 32]))
+            if u not in self.upload:
+                self.upload.append(u)
         self.enabler = [rbytes(rng, 32) for _ in range(2)]
         self.size = {}          # si -> allocated size used by legit allocations
         self.target = {}        # (si, n) -> the bytes a well-behaved uploader writes
@@ -650,6 +670,8 @@ def gen_request(rng, w, st):
         values["u"] = w.upload[(idx + 1) % 2]
         values["w"] = w.enabler[(idx + 1) % 2]
         values["r"] = w.lease[(idx + 2) % 3]
+    if route in ("allocate", "write", "abort") and rng.random() < 0.45:
+        values["u"] = rng.choice(w.upload)          # several clients, each with its own upload secret
     if not required and sec_kind not in ("ok", "extra", "nonutf8", "nospace"):
         sec_kind = "ok"
     if len(required) == 4 and sec_kind == "extra":
@@ -689,9 +711,11 @@ def gen_request(rng, w, st):
             "xauth": [x.hex() for x in xauth], "body": body, "sw": sw_kind, "sec": sec_kind, "pm": pm}
 
 
-def legit_request(rng, w, route, si, n, body):
+def legit_request(rng, w, route, si, n, body, upload=None):
     idx = (w.imm_si + w.mut_si).index(si)
     values = {"r": w.lease[idx % 3], "c": w.lease[(idx + 1) % 3], "u": w.upload[idx % 2], "w": w.enabler[idx % 2]}
+    if upload is not None:
+        values["u"] = upload
     return {"route": route, "si": si, "n": n, "method": METHOD[route], "path": route_path(route, si, n),
             "auth": [auth_value(w.swissnum).hex()], "xauth": [x.hex() for x in mutate_secrets(rng, w, REQUIRED[route], values, "ok")],
             "body": body, "sw": "ok", "sec": "ok", "pm": "ok"}
@@ -715,7 +739,50 @@ def gen_history(rng, length):
         m = w.mut_si[0]
         reqs.append(legit_request(rng, w, "rtw", m, 0, ["q", {"tw": [[0, [], [[0, rbytes(rng, 12).hex()]], None],
                                                                     [1, [], [[2, rbytes(rng, 5).hex()]], None]], "rv": []}]))
-    return w, reqs + [gen_request(rng, w, None) for _ in range(length)]
+    if rng.random() < 0.65:
+        reqs += contention(rng, w)
+    tail = [gen_request(rng, w, None) for _ in range(length)]
+    if rng.random() < 0.5:
+        # more cross-secret traffic later in the history, when the random requests have moved things around
+        k = rng.randrange(len(tail) + 1)
+        tail = tail[:k] + cross_requests(rng, w, w.imm_si[1], rng.randrange(2, 6)) + tail[k:]
+    return w, reqs + tail
+
+
+def cross_requests(rng, w, si, count):
+    """well-formed writes / aborts presenting each of the upload secrets in play against each share number"""
+    reqs = []
+    size = w.size.get(si)
+    if size is None:
+        w.target_of(si, 0)
+        size = w.size[si]
+    for _ in range(count):
+        n = rng.randrange(3)
+        sec = rng.choice(w.upload)
+        if rng.random() < 0.25:
+            reqs.append(legit_request(rng, w, "abort", si, n, ["n"], upload=sec))
+        else:
+            t = w.target_of(si, n)
+            a = rng.randrange(size)
+            b = rng.randrange(a + 1, size + 1)
+            reqs.append(legit_request(rng, w, "write", si, n, ["w", "bytes %d-%d/*" % (a, b - 1), t[a:b].hex()], upload=sec))
+    return reqs
+
+
+def contention(rng, w):
+    """2-3 clients upload different share numbers of one storage index, each with its own upload secret (separate
+    allocation requests), then everybody's secret is tried against everybody's share"""
+    si = w.imm_si[1]
+    w.target_of(si, 0)
+    size = w.size[si]
+    order = [0, 1, 2]
+    rng.shuffle(order)
+    k = rng.choice([2, 3, 3])
+    reqs = []
+    for j, n in enumerate(order[:k]):
+        w.target_of(si, n)
+        reqs.append(legit_request(rng, w, "allocate", si, n, ["a", [n], size], upload=w.upload[j]))
+    return reqs + cross_requests(rng, w, si, rng.randrange(4, 10))
 
 
 # ----------------------------------------------------------------------------- monitor helpers (statement-level)
@@ -815,9 +882,15 @@ def run_history(ctx, hist_id, w_swissnum, reqs, monitor_world=None):
             before_raw, before_abs = after_raw, after_abs
             datas = [d for d in stack.share_datas(before_abs) if len(d) >= 4]
             code, rh, body, tok = send(stack, req)
+            resp = canon_response(req, code, rh, body)
+            pres = presented_secrets(req)
+            if resp.startswith("200:alloc:"):
+                alloc = resp.split(":")[2].split("/")[1]
+                ups_ = [v for (k_, v) in pres if k_ == "upload-secret"]
+                if alloc != "-" and ups_:
+                    stack.note_allocated(req["si"], [int(x) for x in alloc.split(",")], ups_[-1])
             after_raw = stack.raw_snapshot()
             after_abs = stack.abstract()
-            resp = canon_response(req, code, rh, body)
             chg = "0" if before_abs == after_abs else "1"
             outs.append("%s:%s" % (resp, chg))
             toks.append(tok)
@@ -844,7 +917,25 @@ def run_history(ctx, hist_id, w_swissnum, reqs, monitor_world=None):
                     if code < 400:
                         ctx.violation("a request with %s secrets was answered %d" % (why, code), sub,
                                       "badsecrets-accepted-%s-%s" % (req["route"], why))
-            pres = presented_secrets(req)
+            if req["route"] in ("write", "abort") and req["pm"] in ("ok", "si-noncanon", "shnum-zeros"):
+                # the statement: a write to / abort of an in-progress upload requires THAT upload's secret
+                tkey = (req["si"], req["n"])
+                if tkey in before_raw[1]:
+                    own = before_raw[1][tkey][0]
+                    others = {v[0] for k_, v in before_raw[1].items() if k_ != tkey}
+                    presented = {v for (_, v) in pres}
+                    if own not in presented and (presented & others):
+                        ctx.count("cross-secret-attempt:" + req["route"])
+                        files_same = before_raw[0] == after_raw[0]
+                        if code < 400 or after_raw[1].get(tkey) != before_raw[1][tkey] or not files_same:
+                            ctx.violation("a %s presenting the upload secret of ANOTHER in-progress share was accepted "
+                                          "(status %d, upload %s, disk %s)" % (
+                                              req["route"], code,
+                                              "unchanged" if after_raw[1].get(tkey) == before_raw[1][tkey] else "changed",
+                                              "unchanged" if files_same else "changed"), sub,
+                                          "upload-secret-of-other-share-accepted:" + req["route"])
+                    elif own in presented:
+                        ctx.count("own-secret-attempt:" + req["route"])
             if req["route"] in ("write", "abort"):
                 # uploads in progress whose secret the request does not present must not change
                 for key, (sec, rng_, closed) in before_raw[1].items():
